@@ -269,7 +269,7 @@ META["C20"] = {
 
 META["C16"] = {
     "title": "Ending a stream early retires the producers that feed it",
-    "rule": "cases = (producer in interval(1|5 ms) / from_iter over a counting iterator capped at 1500 / 1501 pulls (the even cap reports its exact remaining length through size_hint(), like a Vec or range iterator; the odd one leaves size_hint() at its default) / from_stream over an endless self-waking scripted stream (even seeds: a pending spell between most items; odd seeds: a backlog of six items ready in a row, so that several items are ready at the moment the stream is ended), position main or secondary/notifier input of skip_until / take_until / sample / buffer / with_latest_from / merge / zip / combine_latest (hot main input emitting every 3 ms), or inner observable of flat_map / concat_map / merge_all(2) (hot outer emitting exactly one item, so that exactly one inner producer exists when the cutter fires), 0..n intermediate operators, cutter in take / first / first_or / element_at / take_while(_inclusive) / contains / all, scheduler form, task order). A sweep puts every catalogue operator (single-input, two-input with a cold other, flattening, scheduler-using, finalize, share, complete_status() used as a stage) once in the middle position for every producer; a second sweep (counter ended_from_the_side_cases) ends the stream from the side - merge with of(1) or timer(2ms), take_until(of(1)) or take_until(timer(2ms)) - below an operator that forwards nothing at that point (skip_until(never), filter(false), filter_map(false), skip_while(true), skip(100000), ignore_elements, last, take_last, reduce, count, collect, skip_last(100000), sample(never), buffer(never), debounce(50ms > the producer's period)) for every producer and both scheduler forms; the rest are seeded random chains of depth <= 2 quick / <= 4 thorough. Every case runs on the virtual clock to a 200 ms horizon. Thread part (scenario interval+workers): interval(1ms).take(k) ticking on 1-2 worker threads, ended by take or by an unsubscribing thread; after everything ran until idle no scheduled task and no virtual timer may be left (run-until-idle terminates). Cases with the producer in the other input of every two-input operator whose main input is `throw` or `empty`, i.e. a stream that is over at subscription time (counter main_input_over_at_subscription_cases). A case counts (non-trivial) only if the cutter actually fired; distinct = hash(case).",
+    "rule": "cases = (producer in interval(1|5 ms) / from_iter over a counting iterator capped at 1500 / 1501 pulls (the even cap reports its exact remaining length through size_hint(), like a Vec or range iterator; the odd one leaves size_hint() at its default) / from_stream over an endless self-waking scripted stream (even seeds: a pending spell between most items; odd seeds: a backlog of six items ready in a row, so that several items are ready at the moment the stream is ended), position main or secondary/notifier input of skip_until / take_until / sample / buffer / with_latest_from / merge / zip / combine_latest (hot main input emitting every 3 ms), or inner observable of flat_map / concat_map / merge_all(2) (hot outer emitting exactly one item, so that exactly one inner producer exists when the cutter fires; in two more positions - concat_map and merge_all(1) with three inner producers - two of them are still waiting for the slot of the running one when the stream is ended: each instance is allowed its one look), 0..n intermediate operators, cutter in take / first / first_or / element_at / take_while(_inclusive) / contains / all, scheduler form, task order). A sweep puts every catalogue operator (single-input, two-input with a cold other, flattening, scheduler-using, finalize, share, complete_status() used as a stage) once in the middle position for every producer; a second sweep (counter ended_from_the_side_cases) ends the stream from the side - merge with of(1) or timer(2ms), take_until(of(1)) or take_until(timer(2ms)) - below an operator that forwards nothing at that point (skip_until(never), filter(false), filter_map(false), skip_while(true), skip(100000), ignore_elements, last, take_last, reduce, count, collect, skip_last(100000), sample(never), buffer(never), debounce(50ms > the producer's period)) for every producer and both scheduler forms; the rest are seeded random chains of depth <= 2 quick / <= 4 thorough. Every case runs on the virtual clock to a 200 ms horizon. Thread part (scenario interval+workers): interval(1ms).take(k) ticking on 1-2 worker threads, ended by take or by an unsubscribing thread; after everything ran until idle no scheduled task and no virtual timer may be left (run-until-idle terminates). Cases with the producer in the other input of every two-input operator whose main input is `throw` or `empty`, i.e. a stream that is over at subscription time (counter main_input_over_at_subscription_cases). A case counts (non-trivial) only if the cutter actually fired; distinct = hash(case).",
     "assumptions": COMMON_ASSUME + [
         "retired means, measured after the subscriber saw the cutter's terminal: no tick of the producer later than one period after it, and no pending timer / live task at the horizon (interval); at most one more pull (from_iter); at most two more polls and no live task (from_stream)",
         "take(0) is not used as a cutter",
@@ -278,7 +278,7 @@ META["C16"] = {
     "level_text": "Exploration: operator sweep in the middle position, every two-input operator with the producer as secondary input, plus random chains.",
     "level_note": "Trusted: virtual clock and arena executor accounting (live timers are exact: a dropped timer future unregisters itself).",
     "design_ref": "DESIGN.md §5 C16",
-    "require": {"quick": {"middle_operators_covered": 46, "positions_covered": 12, "cutters_covered": 8, "ended_from_the_side_cases": 400, "thread_schedules": 2500, "free_parallel_runs": 700}, "thorough": {"middle_operators_covered": 46, "positions_covered": 12, "ended_from_the_side_cases": 400, "thread_schedules": 100000, "free_parallel_runs": 50000}},
+    "require": {"quick": {"middle_operators_covered": 46, "positions_covered": 14, "cutters_covered": 8, "ended_from_the_side_cases": 400, "thread_schedules": 2500, "free_parallel_runs": 700}, "thorough": {"middle_operators_covered": 46, "positions_covered": 14, "ended_from_the_side_cases": 400, "thread_schedules": 100000, "free_parallel_runs": 50000}},
     "watchdog_s": {"quick": 400, "thorough": 5400},
 }
 
